@@ -158,7 +158,10 @@ def _run_case_body(ctx, L, i, version=2, scope=None):
         cif = B.build_cif(L, doc)
         orig = D.dump(L, cif)
         orig_eq = B.eq_dump(orig)
-        rc, data = L.write_bytes(cif, None if version == 2 else 1)
+        # "default CIF 2.0 mode": no options at all, the options object's default (0), or CIF 2.0 asked for by number
+        wv = (None, 0, 2)[i % 3] if version == 2 else 1
+        rc, data = L.write_bytes(cif, wv)
+        ctx.add('write_options', 'NULL' if wv is None else 'cif_version=%d' % wv)
         ctx.add('write_rc', str(rc))
         unwritable = any(B.unwritable_keys(v) for v in B.doc_values(doc))
         if rc != CIF_OK:
@@ -221,7 +224,8 @@ def run(env):
                  'PRNG), written in CIF 2.0 mode; non-trivial = cif_write succeeded and its output passed the header, '
                  'UTF-8 and line-length checks and re-parsed without error to an equivalent CIF',
             samples=res.samples, systematic_line_fill_probes=res.count('fill_probes'),
-            delimiter_stress_documents=res.count('delimiter_stress_documents'), refused_for_unwritable_table_key=res.count('refused_unwritable_key'),
+            delimiter_stress_documents=res.count('delimiter_stress_documents'),
+            write_options_used=sorted(res.sets.get('write_options', ())), refused_for_unwritable_table_key=res.count('refused_unwritable_key'),
             bytes_written=res.count('bytes_written'),
             outputs_with={k[len('output_with_'):]: v for k, v in res.counters.items() if k.startswith('output_with_')},
             write_result_codes=sorted(res.sets.get('write_rc', ())), crashes=res.crashes),
